@@ -312,12 +312,14 @@ func parseUpstream(u string) ([]string, error) {
 	}
 
 	portsStr := strings.Split(ports, "-")
-	pIni, err := strconv.Atoi(portsStr[0])
+	// port numbers are 16 bits wide; anything larger is refused, which also
+	// keeps the loop below from running (almost) forever or wrapping around
+	pIni, err := strconv.ParseUint(portsStr[0], 10, 16)
 	if err != nil {
 		return nil, err
 	}
 
-	pEnd, err := strconv.Atoi(portsStr[1])
+	pEnd, err := strconv.ParseUint(portsStr[1], 10, 16)
 	if err != nil {
 		return nil, err
 	}
